@@ -42,7 +42,9 @@ import (
 	"path/filepath"
 	"strings"
 	"sync"
+	"syscall"
 	"time"
+	"unsafe"
 
 	"github.com/sharedcode/sop"
 	"github.com/sharedcode/sop/fs"
@@ -132,6 +134,8 @@ func (w *wrap) WriteAt(ctx context.Context, f *os.File, b []byte, off int64) (in
 				}
 			}
 			_ = g.Sync()
+			// drop the (now clean) pages so no cached copy of the torn block outlives the victim
+			_, _, _ = syscall.Syscall6(syscall.SYS_FADVISE64, g.Fd(), 0, 0, 4 /* POSIX_FADV_DONTNEED */, 0, 0)
 			_ = g.Close()
 			w.at("mid-write") // pauses if planned, then exits 77
 		}
@@ -288,14 +292,65 @@ func cowPath(base string, block int) string {
 	return filepath.Join(base, table, fmt.Sprintf("%s-1_%d.cow", table, block*regx.BlockSize))
 }
 func readBlock(base string, block int) ([]byte, error) {
-	f, err := os.Open(segPath(base))
+	b, err := directRead(segPath(base), int64(block)*regx.BlockSize)
+	if err == nil && b == nil {
+		err = fmt.Errorf("segment file ends before block %d", block)
+	}
+	return b, err
+}
+
+// ---- harness-side block I/O: O_DIRECT like the registry itself, so that the page cache never sits
+// between what the registry wrote and what the harness inspects (mixing buffered and direct I/O on
+// one file is not guaranteed coherent) ----
+
+func alignedBlock() []byte {
+	b := make([]byte, 2*regx.BlockSize)
+	off := int(uintptr(unsafe.Pointer(&b[0])) & (regx.BlockSize - 1))
+	if off != 0 {
+		off = regx.BlockSize - off
+	}
+	return b[off : off+regx.BlockSize : off+regx.BlockSize]
+}
+
+// directRead returns the 4096-byte block at byte offset off; (nil, nil) when the file ends before it.
+func directRead(path string, off int64) ([]byte, error) {
+	fd, err := syscall.Open(path, syscall.O_RDONLY|syscall.O_DIRECT, 0)
 	if err != nil {
 		return nil, err
 	}
-	defer f.Close()
-	b := make([]byte, regx.BlockSize)
-	_, err = f.ReadAt(b, int64(block)*regx.BlockSize)
-	return b, err
+	defer syscall.Close(fd)
+	buf := alignedBlock()
+	n, err := syscall.Pread(fd, buf, off)
+	if err != nil {
+		return nil, err
+	}
+	if n == 0 {
+		return nil, nil
+	}
+	if n != regx.BlockSize {
+		return nil, fmt.Errorf("short direct read: %d bytes at %d of %s", n, off, path)
+	}
+	out := make([]byte, regx.BlockSize)
+	copy(out, buf)
+	return out, nil
+}
+
+func directWrite(path string, off int64, data []byte) error {
+	fd, err := syscall.Open(path, syscall.O_WRONLY|syscall.O_DIRECT, 0)
+	if err != nil {
+		return err
+	}
+	defer syscall.Close(fd)
+	buf := alignedBlock()
+	copy(buf, data)
+	n, err := syscall.Pwrite(fd, buf, off)
+	if err != nil {
+		return err
+	}
+	if n != regx.BlockSize {
+		return fmt.Errorf("short direct write: %d", n)
+	}
+	return nil
 }
 
 // setup writes the world's content through the real registry (in the parent, no seam installed).
